@@ -627,5 +627,72 @@ def toHeader {α} (eq : α → α → Bool) (axes : List α) : List (List Nat ×
 def getIndexMap {α} (matrix : List (List Nat × α)) (i : Nat) : Option α :=
   (matrix.find? (fun m => m.1.contains i)).map (·.2)
 
+/-! ## metadata through the XML text  (wave-3 extension)
+    `CaretMetaData._to_xml_element` (nibabel/caret.py:115-124), `Cifti2NamedMap._to_xml_element`
+    (cifti2.py:464-465: `if self.metadata:`), `Cifti2Matrix._to_xml_element` (cifti2.py:1299-1300),
+    the parser (parse_cifti2.py:172-194 MetaData / MD / Name / Value start, 408-424 end handlers,
+    503-511 `flush_chardata`: `data.strip()`), `ScalarAxis.to_mapping / from_index_mapping`
+    (cifti2_axes.py:1102-1136: `{} if nm.metadata is None else dict(nm.metadata)`).
+
+    A text is an opaque stripped CORE (id; the empty text is a core like any other) with leading and trailing
+    whitespace PADDING (ids, 0 = none).  External contract (expat / ElementTree): the character data of a
+    `Name` / `Value` element comes back exactly as written (after XML escaping); `str.strip()` removes
+    exactly the padding. -/
+
+structure Txt where
+  core : Nat
+  padL : Nat
+  padR : Nat
+  deriving Repr, DecidableEq, Inhabited
+
+/-- `data.strip()` -/
+def Txt.strip (t : Txt) : Txt := ⟨t.core, 0, 0⟩
+
+/-- one `MD` element / one dict entry: (Name, Value) -/
+abbrev MD := Txt × Txt
+/-- a metadata dict in insertion order (keys distinct) -/
+abbrev MDict := List MD
+
+/-- the `MetaData` child written for a metadata dict: none at all when the dict is empty
+    (`if self.metadata:`), otherwise one `MD` per entry in dict order, `str(name)`, `str(value)`;
+    an entry with an EMPTY value is an `MD` like any other -/
+def mdToXml (d : MDict) : Option (List MD) := if d.isEmpty then none else some d
+
+/-- the parser on the `MD` children of one `MetaData` element: `pair = ['', '']`, Name / Value text
+    stripped, `meta[pair[0]] = pair[1]` at the end of each `MD` -/
+def mdParse (mds : List MD) : MDict := (mds.map (fun e => (e.1.strip, e.2.strip))).foldl (updSet (·.1)) []
+
+/-- the parsed side: no `MetaData` element reads back as no metadata, which `from_index_mapping`
+    turns into `{}` (for the file-level metadata: `None`, compared as "no entries") -/
+def mdOfXml : Option (List MD) → MDict
+  | none => []
+  | some mds => mdParse mds
+
+def mdXrt (d : MDict) : MDict := mdOfXml (mdToXml d)
+
+/-- ScalarAxis with EXPLICIT metadata dicts -/
+structure ScalarM where
+  name : List Nat
+  mta : List MDict
+  deriving Repr, DecidableEq, Inhabited
+
+def scalarMMk (name : List Nat) (mta : List MDict) : Except Err ScalarM :=
+  if mta.length = name.length then .ok ⟨name, mta⟩ else .error .valueError
+
+/-- one `Cifti2NamedMap` of a scalar axis as it is in the XML: map name and optional MetaData child -/
+abbrev NMapX := Nat × Option (List MD)
+
+/-- `ScalarAxis.to_mapping` + `Cifti2NamedMap._to_xml_element` -/
+def scalarMToXml (a : ScalarM) : List NMapX := (a.name.zip a.mta).map (fun e => (e.1, mdToXml e.2))
+/-- parser + `ScalarAxis.from_index_mapping` -/
+def scalarMFromXml (ms : List NMapX) : Except Err ScalarM :=
+  scalarMMk (ms.map (·.1)) (ms.map (fun m => mdOfXml m.2))
+
+/-- header → XML → header for one scalar axis with explicit metadata -/
+def scalarMXrt (a : ScalarM) : Except Err ScalarM := scalarMFromXml (scalarMToXml a)
+
+/-- `dict.get` on an insertion-ordered dict -/
+def mdGet (d : MDict) (k : Txt) : Option Txt := (d.find? (fun e => e.1 == k)).map (·.2)
+
 
 end Nb.C18
